@@ -139,6 +139,10 @@ def tlc(module, cfg, workers=8, env_extra=None, timeout=3600, simulate=None, cov
     m = re.findall(r"(\d+) states generated, (\d+) distinct states found", r.out)
     if m:
         r.generated, r.distinct = int(m[-1][0]), int(m[-1][1])
+    if not m:
+        m2 = re.search(r"The number of states generated: (\d+)", r.out)
+        if m2:
+            r.generated = r.distinct = int(m2.group(1))
     m = re.search(r"depth of the complete state graph search is (\d+)", r.out)
     if m:
         r.depth = int(m.group(1))
